@@ -165,10 +165,13 @@ def configs(tier):
         UpdateHarness("2-explicit-format", [[(T0, R["left"], 1.0)], [(T0, R["top"], 2.0)]], default_format="fits", fmt="npy"),
         UpdateHarness("3-two-tiles", [[(T0, R["left"], 1.0)], [(T0, R["right"], 2.0)], [(T1, R["mid"], 3.0)]]),
     ]
+    cfgs += [
+        UpdateHarness("3-one-tile", [[(T0, R["left"], 1.0)], [(T0, R["right"], 2.0)], [(T0, R["top"], 3.0)]]),
+        UpdateHarness("2x2-sequential", [[(T0, R["left"], 1.0), (T0, R["px"], 5.0)], [(T0, R["right"], 2.0), (T0, R["mid"], 6.0)]]),
+    ]
     if tier == "thorough":
         cfgs += [
-            UpdateHarness("3-one-tile", [[(T0, R["left"], 1.0)], [(T0, R["right"], 2.0)], [(T0, R["top"], 3.0)]]),
-            UpdateHarness("2x2-sequential", [[(T0, R["left"], 1.0), (T0, R["px"], 5.0)], [(T0, R["right"], 2.0), (T0, R["mid"], 6.0)]]),
+            UpdateHarness("3x2-one-tile", [[(T0, R["left"], 1.0), (T0, R["px"], 4.0)], [(T0, R["right"], 2.0), (T0, R["mid"], 5.0)], [(T0, R["top"], 3.0)]]),
             UpdateHarness("2x2-two-tiles", [[(T0, R["left"], 1.0), (T1, R["px"], 5.0)], [(T1, R["right"], 2.0), (T0, R["mid"], 6.0)]]),
         ]
     return cfgs
